@@ -415,7 +415,23 @@ fn run_history(case: &FaultCase, fault: Option<(FaultRule, bool, bool, bool)>, c
                         let j = env.commits;
                         // reading the image must not be disturbed by a permanent fault: the image is a separate directory
                         check_image(files, &[j], &env.models, false, false).map_err(|f| {
-                            Failure::new(format!("commit_ok_but_durable_image_bad:{}", f.sig), format!("after op #{i} {op:?} (commit c{j} returned Ok, {} faults fired so far): {}", sd.faults_fired(), f.detail))
+                            // storage history of the file named in the failure (diagnostics)
+                            let mut hist = String::new();
+                            if let Some(name) = f.detail.split_whitespace().find(|w| w.len() > 33 && w.contains('.')) {
+                                let seg = &name[..32.min(name.len())];
+                                let mut syncs = 0usize;
+                                for (n, o) in log.iter().enumerate() {
+                                    if o.kind == K::SyncDir {
+                                        syncs += 1;
+                                    }
+                                    let p = o.path.to_string_lossy();
+                                    if p.contains(seg) && matches!(o.kind, K::Create | K::Delete | K::Terminate) {
+                                        hist.push_str(&format!(" [{n}:{:?} {} by {} failed={} syncs_before={syncs}]", o.kind, p, o.thread, o.failed));
+                                    }
+                                }
+                                hist.push_str(&format!(" (log has {} ops, {syncs} syncs)", log.len()));
+                            }
+                            Failure::new(format!("commit_ok_but_durable_image_bad:{}", f.sig), format!("after op #{i} {op:?} (commit c{j} returned Ok, {} faults fired so far): {}; history:{hist}", sd.faults_fired(), f.detail))
                         })?;
                         if sd.faults_fired() > 0 {
                             rep.commit_ok_after_fault = true;
